@@ -135,7 +135,7 @@ def build_driver(work, defs, tags="verif", race=False):
     return binp, defs_path
 
 
-EV_OF_OP = {"size": "Size", "encode": "Encode", "encsweep": "Encode", "decode": "Decode", "gc": "GC", "deep": "Deep", "reject": "Reject"}
+EV_OF_OP = {"size": "Size", "encode": "Encode", "encsweep": "Encode", "decode": "Decode", "gc": "GC", "deep": "Deep", "reject": "Reject", "legacy": "Legacy", "allocs": "Allocs"}
 
 
 def run_driver(work, binp, defs_path, scenarios, env=None, maxstack=0, step_timeout=None):
@@ -200,7 +200,7 @@ def run_driver(work, binp, defs_path, scenarios, env=None, maxstack=0, step_time
         outcome = "timeout" if p.returncode == 3 else "crash"
         rec = {"scen": si, "sid": sc["sid"], "step": k, "ev": EV_OF_OP.get(st.get("op"), "Unknown"),
                "ty": st.get("ty", ""), "v": st.get("v", 0), "buflen": 0, "orig": st.get("orig", -1),
-               "in": st.get("in", []), "pattern": st.get("pattern", ""), "entry": st.get("entry", ""), "arg": st.get("arg", "ptr"), "class": st.get("class", ""), "rep": 0, "d": 1 << 30, "levels": 1 << 30, "len": 0,
+               "in": st.get("in", []), "pattern": st.get("pattern", ""), "entry": st.get("entry", ""), "arg": st.get("arg", "ptr"), "class": st.get("class", ""), "rep": 0, "call": st.get("call", ""), "arg2": 0, "calls": st.get("calls", 0), "d": 1 << 30, "levels": 1 << 30, "len": 0,
                "obs": {"out": outcome, "rc": p.returncode,
                        "stderr": p.stderr.decode(errors="replace")[:600]}}
         records.append(rec)
